@@ -13,3 +13,13 @@ pub assume_specification [{{T}}::wrapping_div] (a: {{T}}, b: {{T}}) -> (r: {{T}}
 pub assume_specification [{{T}}::overflowing_div] (a: {{T}}, b: {{T}}) -> (r: ({{T}}, bool))
     requires b != 0
     ensures r.0 as int == wrap({{S}}, {{W}}, tz(a as int, b as int)), r.1 == !fits({{S}}, {{W}}, tz(a as int, b as int));
+pub assume_specification [{{T}}::overflowing_neg] (a: {{T}}) -> (r: ({{T}}, bool))
+    ensures r.0 as int == wrap({{S}}, {{W}}, -(a as int)), r.1 == !fits({{S}}, {{W}}, -(a as int));
+pub assume_specification [{{T}}::wrapping_neg] (a: {{T}}) -> (r: {{T}})
+    ensures r as int == wrap({{S}}, {{W}}, -(a as int));
+pub assume_specification [{{T}}::checked_neg] (a: {{T}}) -> (r: Option<{{T}}>)
+    ensures r == (if fits({{S}}, {{W}}, -(a as int)) { Some((-(a as int)) as {{T}}) } else { None });
+pub assume_specification [{{T}}::min_value] () -> (r: {{T}})
+    ensures r as int == min_of({{S}}, {{W}});
+pub assume_specification [{{T}}::max_value] () -> (r: {{T}})
+    ensures r as int == max_of({{S}}, {{W}});
